@@ -62,7 +62,7 @@ CHECKS = {
             "Trusted: the structural reader and the deep comparison; documents are the generated rich document family and the repository corpus; /ProcSet and inherited page-tree attributes the operations do not use are outside the comparison.",
             "§5 C20"),
     "C06": ("model_checking",
-            "deviation-bounded exhaustive exploration of encryption configurations (17 handler variants x <=2/<=3 deviations of passwords incl. 127/128-byte and multi-byte-at-the-limit ones, permissions, ID, flags, object ids, lengths, spellings) and a sweep of 6 key-derivation variants x 256 password pairs, documents produced by an independent encryptor and read with the real library under correct and wrong passwords",
+            "deviation-bounded exhaustive exploration of encryption configurations (17 handler variants x <=2/<=3 deviations of passwords incl. 127/128-byte and multi-byte-at-the-limit ones, permissions, ID, flags, object ids, lengths, spellings, encryption dictionary with and without /Length under V 4) and a sweep of 6 key-derivation variants x 256 password pairs, documents produced by an independent encryptor and read with the real library under correct and wrong passwords",
             "Each configuration is materialised as a file by an encryptor written from the specification (validated against 10 third-party fixtures), opened with user and owner password (all strings, streams, metadata, compressed strings and the encryption dictionary's own strings compared with plaintext) and with wrong passwords (must be InvalidPassword).",
             "Trusted: harness encryptor + md5/sha2/aes/cbc crates. Public-key handlers, /StrF != /StmF, named crypt filters outside the property. Bound on simultaneous deviations.",
             "§5 C06"),
